@@ -1,12 +1,12 @@
 CONSTANTS
-  MaxEv = 5
-  Delays = {1, 2, 5}
-  Steps = {1, 2, 3, 7}
-  MaxNow = 30
-  MaxRuns = 3
-  MaxClr = 2
+  MaxEv = 2
+  Delays = {1, 2}
+  Steps = {1, 3}
+  MaxNow = 5
+  MaxRuns = 2
+  MaxClr = 1
   Dev = {}
-  Slows = {0}
+  Slows = {0, 3}
   Export = TRUE
 INIT Init
 NEXT Next
@@ -14,5 +14,6 @@ INVARIANT NoEarlyFire
 INVARIANT DueOrder
 INVARIANT RepeatSpacing
 INVARIANT ClearSilences
-INVARIANT Full
+CONSTRAINT Edge
+VIEW View
 CHECK_DEADLOCK FALSE
